@@ -115,6 +115,26 @@ func resolveRing(w *World) (*ringInfo, error) {
 			}
 		}
 	}
+	if ri.fCUR < 0 {
+		// the position is not advanced by a remainder: it is still the field Current() indexes the frames with
+		if cur := ri.methods["Current"]; cur != nil {
+			for _, b := range cur.Blocks {
+				ret, ok := b.Instrs[len(b.Instrs)-1].(*ssa.Return)
+				if !ok || len(ret.Results) != 1 {
+					continue
+				}
+				if ld, ok := ret.Results[0].(*ssa.UnOp); ok {
+					if ia, ok := ld.X.(*ssa.IndexAddr); ok {
+						if il, ok := ia.Index.(*ssa.UnOp); ok {
+							if fa, ok := il.X.(*ssa.FieldAddr); ok && isPtrTo(fa.X.Type(), T) && isInteger(ri.St.Field(fa.Field).Type()) {
+								ri.fCUR = fa.Field
+							}
+						}
+					}
+				}
+			}
+		}
+	}
 	// the mark is the remaining integer field (stored with -1 when it expires)
 	ri.fOLD = -1
 	for fi := 0; fi < ri.St.NumFields(); fi++ {
